@@ -93,6 +93,24 @@ theorem in_is_disj_eq (sch : SchemaEval) (d : Doc) (path : String) (vs : List V)
     · simp only [h]
       simpa using ih
 
+/-- `$all [v₁…vₙ]` (n ≥ 1) is the short-circuit conjunction of the equalities `$eq vᵢ` — MongoDB's
+    definition of `$all`; the empty `$all` matches nothing. -/
+theorem all_is_conj_eq (sch : SchemaEval) (d : Doc) (path : String) (vs : List V) :
+    mOp sch d "$all" path (.arr vs) =
+      if vs.isEmpty then .error .notMatched else conj (vs.map fun v => mOp sch d "$eq" path v) := by
+  rw [mOp_leaf sch d "$all" path _ _ rfl]
+  unfold matchAll
+  by_cases he : vs.isEmpty = true
+  · simp [he, notMatched]
+  · simp only [he, Bool.false_eq_true, ↓reduceIte]
+    clear he
+    induction vs with
+    | nil => rfl
+    | cons v r ih =>
+      simp only [List.map_cons, allLoop, conj]
+      rw [mOp_leaf sch d "$eq" path v _ rfl, ih]
+      cases matchComp d "$eq" path v <;> rfl
+
 theorem ordering_ne_lt (o : Ordering) : (o != .lt) = (o == .gt || o == .eq) := by cases o <;> rfl
 theorem ordering_ne_gt (o : Ordering) : (o != .gt) = (o == .lt || o == .eq) := by cases o <;> rfl
 
@@ -135,5 +153,7 @@ theorem match_total (sch : SchemaEval) (d q : Doc) : Match sch d q ≠ .error .n
 #guard (mOp schemaUnmodelled [("a", .arr [.i32 1, .i64 2])] "$in" "a" (.arr [.f64 0x4000000000000000])) matches .ok ()
 #guard (mOp schemaUnmodelled [("a", .arr [.i32 1, .i64 2])] "$gte" "a" (.dec 0x3040000000000000 2)) matches .ok ()
 #guard (mOp schemaUnmodelled [("a", .str "x")] "$gte" "a" (.i32 0)) matches .error .notMatched
+#guard (mOp schemaUnmodelled [("a", .arr [.i32 1, .i32 2])] "$all" "a" (.arr [.arr [.i32 1, .i32 2], .i32 1])) matches .ok ()
+#guard (mOp schemaUnmodelled [("a", .arr [.i32 1, .i32 2])] "$all" "a" (.arr [.i32 1, .i32 3])) matches .error .notMatched
 
 end Lungo.C10
